@@ -114,8 +114,7 @@ def membership(spec, x, y, pos_err=0.0):
     *pos_err* is an additional absolute uncertainty of the query positions
     (mask sample points are computed by the library in floating point)."""
     cls = spec['cls']
-    x = np.asarray(x, float)
-    y = np.asarray(y, float)
+    x, y = np.broadcast_arrays(np.asarray(x, float), np.asarray(y, float))
     pe = pos_err
     if cls == 'CirclePixelRegion':
         return circle(*map(float, spec['center']), float(spec['radius']), x, y,
